@@ -32,9 +32,13 @@ fn eval_tcp_throughput_inv(rtt: f64, target_rate_bps: u32) -> f64 {
 
     let mut a = 0.0;
     let mut b = 1.0;
+    let mut c = 0.5;
 
-    loop {
-        let c = (b + a)/2.0;
+    // The target may be unreachable (a rate above X(p -> 0) cannot occur, but a rate below X(1),
+    // a tolerance that truncates to zero, or an RTT of zero can), so the bisection is bounded:
+    // after 64 halvings the interval is empty and the closest loss rate is returned.
+    for _ in 0 .. 64 {
+        c = (b + a)/2.0;
 
         let rate = eval_tcp_throughput(rtt, c);
 
@@ -56,6 +60,8 @@ fn eval_tcp_throughput_inv(rtt: f64, target_rate_bps: u32) -> f64 {
             return c;
         }
     }
+
+    return c;
 }
 
 #[derive(Debug,PartialEq)]
